@@ -132,7 +132,8 @@ _FIRED: list = []  # (where, tag) of every injected failure that actually fired 
 
 
 def _fire(where, tag):
-    _FIRED.append((where, tag))
+    # third field: how many Port.get completions the monitor had recorded when the failure fired
+    _FIRED.append((where, tag, len(_REC.gets) if _REC is not None else None))
 
 
 # --------------------------------------------------------------------------------------------
@@ -506,6 +507,12 @@ CRAFTED = {
         "ops": [{"k": "src", "o": "s0", "v": [1, 4]}, {"k": "scatter", "x": "s0", "o": "p1"},
                 {"k": "loop", "x": "p1", "o": "p2", "p": "pos", "f": "dec", "body": "exec"}],
         "outs": ["p2"], "fail": {"op": 2, "tag": "0.1.2", "mode": "sched_raise"}, "cls": "fail"},
+    "fail_command_raises_in_scattered_loop_body": {
+        # the failing job of instance 0.0 completes while inputs of the other instances keep arriving (race, ~5-15 %)
+        "ops": [{"k": "src", "o": "s0", "v": [1, 2, 3, 4]}, {"k": "scatter", "x": "s0", "o": "p1"},
+                {"k": "loop", "x": "p1", "o": "p2", "p": "pos", "f": "dec", "body": "exec"},
+                {"k": "gather", "x": "p2", "o": "p3"}],
+        "outs": ["p3"], "fail": {"op": 2, "tag": "0.0.0", "mode": "cmd_raise"}, "cls": "fail"},
     "loop_completed_input": {
         "ops": [{"k": "src", "o": "s0", "v": 2}, {"k": "loop", "x": "s0", "o": "p1", "p": "pos", "f": "dec", "body": "exec"}],
         "outs": ["p1"], "fail": None, "cls": "plain"},
@@ -1149,6 +1156,12 @@ async def _run(prog, seed, workdir, wall, want_db, keep_objects):
                        and sum(1 for u in info["ports"][s].token_list if not isinstance(u, TerminationToken) and u.tag == t.tag) > 1})
             for s in prog["outs"]}
         obs["fired"] = list(_FIRED)
+        # positions (in the monitor's Port.get record) of the data tokens each consumer received
+        gi = {}
+        for idx, (cons, _pn, tok) in enumerate(rec.gets):
+            if not isinstance(tok, TerminationToken):
+                gi.setdefault(cons, []).append(idx)
+        obs["get_index"] = gi
         obs["trace_hash"] = trace_hash(rec.trace)
         obs["trace_len"] = len(rec.trace)
         obs["counts"] = {"put": rec.n_put, "get": rec.n_get, "persist": rec.n_persist, "term": rec.n_term}
